@@ -1029,6 +1029,60 @@ func firstPublishers(seed int64, rep *report, workdir string, ntopics, npub int)
 		}
 	}
 	rep.FirstPublishTopics = ntopics
+	// run-time configuration changes (PUT /config/log_level) in the middle of a publisher's stream: the ids of the topic
+	// go on increasing, none comes twice
+	{
+		topic := "c12cfg"
+		if !post("/topic/create?topic="+topic) || !post("/channel/create?topic="+topic+"&channel=ch") {
+			return "could not create " + topic
+		}
+		put := func(level string) {
+			req, _ := http.NewRequest("PUT", "http://"+nd.http+"/config/log_level", strings.NewReader(level))
+			if resp, err := hc.Do(req); err == nil {
+				io.Copy(io.Discard, resp.Body)
+				resp.Body.Close()
+			}
+		}
+		want := 0
+		for round := 0; round < 150; round++ {
+			for k := 0; k < 2; k++ {
+				var bodies [][]byte
+				for j := 0; j < 10; j++ {
+					bodies = append(bodies, []byte(fmt.Sprintf("cfg.%d.%d.%d", round, k, j)))
+				}
+				if ft, data, err := conns[0].roundTrip("MPUB "+topic+"\n", lenPrefixed(mpubBinary(bodies))); err == nil && ft == 0 && string(data) == "OK" {
+					want += len(bodies)
+				}
+				if k == 0 {
+					put([]string{"debug", "info", "warn"}[round%3])
+				}
+			}
+		}
+		put("info")
+		c, err := startConsumer(nd.tcp, topic, "ch")
+		if err != nil {
+			return "consumer: " + err.Error()
+		}
+		deadline := time.Now().Add(15 * time.Second)
+		for c.count() < want && time.Now().Before(deadline) {
+			time.Sleep(5 * time.Millisecond)
+		}
+		c.mu.Lock()
+		seen := map[uint64]string{}
+		for _, d := range c.all {
+			rep.Ids++
+			if other, dup := seen[d.id]; dup {
+				rep.violate("dup-id", -1, 7, fmt.Sprintf("topic %s, one publisher, PUT /config/log_level between its MPUBs: id %016x was given to message %s and to message %s", topic, d.id, other, d.body))
+			}
+			seen[d.id] = d.body
+		}
+		got := len(c.all)
+		c.mu.Unlock()
+		c.close()
+		if got < want {
+			return fmt.Sprintf("config-change scenario: %d of %d acknowledged messages delivered within 15 s", got, want)
+		}
+	}
 	return ""
 }
 
